@@ -213,7 +213,7 @@ Definition decode_call (id : Z) (a : list Z) (b : list bytes) : call :=
   else if id =? 9 then CRoutine (g 0%nat) (g 1%nat) (ob a 2 b 0)
   else if id =? 10 then CAccessTiming (g 0%nat) (ob a 1 b 0)
   else if id =? 11 then
-    CCommControl (g 0%nat) (if g 1%nat =? 0 then CtObj (g 2%nat) (zb (g 3%nat)) (zb (g 4%nat)) else CtInt (g 2%nat)) (oi a 5)
+    CCommControl (g 0%nat) (if g 1%nat =? 0 then CtObj (g 2%nat) (zb (g 3%nat)) (zb (g 4%nat)) else if g 1%nat =? 2 then CtBytes (h 0%nat) else CtInt (g 2%nat)) (oi a 5)
   else if id =? 13 then CTransferData (g 0%nat) (ob a 1 b 0)
   else if id =? 14 then CTransferExit (ob a 0 b 0)
   else if id =? 15 then CLinkControl (g 0%nat) (if g 1%nat =? 1 then Some (g 2%nat, g 3%nat) else None)
@@ -289,6 +289,7 @@ Fixpoint decode_ops (n : nat) (a : list Z) (b : list bytes) : list op :=
       end
     | 5 :: slot :: v :: a' => OSetCfg slot v :: decode_ops k a' b
     | 6 :: dt :: a' => OAdvance dt :: decode_ops k a' b
+    | 8 :: dt :: a' => OAdvance dt :: decode_ops k a' b     (* the next request takes dt to transmit: the call's clock starts when it is out *)
     | _ => []
     end
   end.
